@@ -25,36 +25,62 @@ import (
 // ---------------------------------------------------------------- worker pool
 
 type worker struct {
-	cmd *exec.Cmd
-	in  io.WriteCloser
-	out *bufio.Reader
+	cmd  *exec.Cmd
+	in   io.WriteCloser
+	out  *bufio.Reader
+	base string // the cases' working directories live below this one
 }
 
 func startWorker() *worker {
 	cmd := exec.Command(selfExe(), "-c09worker")
+	base, _ := os.MkdirTemp("", "c09w")
+	cmd.Env = append(os.Environ(), "C09_WORKBASE="+base)
 	in, _ := cmd.StdinPipe()
 	outp, _ := cmd.StdoutPipe()
 	cmd.Stderr = io.Discard
 	if err := cmd.Start(); err != nil {
 		panic(err)
 	}
-	return &worker{cmd, in, bufio.NewReaderSize(outp, 1<<22)}
+	return &worker{cmd, in, bufio.NewReaderSize(outp, 1<<22), base}
 }
 
-func (w *worker) run(c CaseIn) (CaseOut, error) {
+// bound on the wall time of one run: far more than any run of the program needs (every wait of
+// the program is limited by its time-out); a run still alive then never ends.
+func runBound(c CaseIn) time.Duration {
+	return time.Duration(12+6*c.timeout()) * time.Second
+}
+
+// run hands one case to the worker.  A run that is still alive after the bound is killed together
+// with the worker (hung = true; the caller starts a new worker).
+func (w *worker) run(c CaseIn) (o CaseOut, hung bool, err error) {
 	data, _ := json.Marshal(c)
 	if _, err := w.in.Write(append(data, '\n')); err != nil {
-		return CaseOut{}, err
+		return CaseOut{}, false, err
 	}
-	line, err := w.out.ReadBytes('\n')
-	if err != nil {
-		return CaseOut{}, err
+	type ans struct {
+		line []byte
+		err  error
 	}
-	var o CaseOut
-	if err := json.Unmarshal(line, &o); err != nil {
-		return CaseOut{}, err
+	ch := make(chan ans, 1)
+	go func() {
+		line, err := w.out.ReadBytes('\n')
+		ch <- ans{line, err}
+	}()
+	var a ans
+	select {
+	case a = <-ch:
+	case <-time.After(runBound(c)):
+		w.cmd.Process.Kill()
+		<-ch
+		return CaseOut{Exit: -1, Hung: true, FaultAt: c.FaultPos}, true, nil
 	}
-	return o, nil
+	if a.err != nil {
+		return CaseOut{}, false, a.err
+	}
+	if err := json.Unmarshal(a.line, &o); err != nil {
+		return CaseOut{}, false, err
+	}
+	return o, false, nil
 }
 
 func (w *worker) stop() {
@@ -65,6 +91,10 @@ func (w *worker) stop() {
 	case <-done:
 	case <-time.After(3 * time.Second):
 		w.cmd.Process.Kill()
+		<-done
+	}
+	if w.base != "" {
+		os.RemoveAll(w.base)
 	}
 }
 
@@ -84,10 +114,12 @@ func runAll(cases []CaseIn, n int) []CaseOut {
 			w := startWorker()
 			defer func() { w.stop() }()
 			for i := range idx {
-				o, err := w.run(cases[i])
+				o, hung, err := w.run(cases[i])
 				if err != nil {
 					// the worker died (a Go panic that is not a bailout would do that): restart
 					o = CaseOut{Exit: 2, Panic: "worker died: " + err.Error(), FaultAt: -1}
+				}
+				if err != nil || hung {
 					w.stop()
 					w = startWorker()
 				}
@@ -276,6 +308,9 @@ func oracle(c CaseIn, o CaseOut, base, baseE plan) verdict {
 	doapp := c.Tool == "doapprove"
 	res := statusResult(o.Status, compare)
 	end := historyEnd(o.History)
+	if o.Hung {
+		return verdict{false, "run_never_ends", fmt.Sprintf("the run was still alive %v after its start (time-out of the program: %d s): no exit status, nothing recorded", runBound(c), c.timeout())}
+	}
 	if o.Panic != "" {
 		return verdict{false, "go_panic", "runtime panic: " + o.Panic}
 	}
@@ -546,9 +581,9 @@ func randomParams(r *RNG, backend string) ScenParams {
 
 func kindsFor(backend string) []string {
 	if isHTTP(backend) {
-		return []string{"httpstatus", "malformed", "errtext", "close", "silence"}
+		return []string{"httpstatus", "status_nobody", "malformed", "errtext", "close", "silence", "stall_body"}
 	}
-	return []string{"errtext", "unexpected", "garbled", "silence", "truncated", "close", "warntext"}
+	return []string{"errtext", "unexpected", "garbled", "silence", "truncated", "stall_partial", "close", "warntext"}
 }
 
 // ---------------------------------------------------------------- main run
@@ -607,7 +642,8 @@ func run(ctx *Ctx) *Result {
 	for _, s := range scens {
 		bl = append(bl, CaseIn{Scen: s, Tool: "doapprove", Mode: "approve", FaultPos: -1})
 	}
-	blOut := runAll(bl, nw)
+	// (no fault, no silence: a time-out in such a run is the test machine's)
+	blOut := runChecked(res, bl, nw, func(c CaseIn, o CaseOut) bool { return !envNoise(o) && !timedOut(o) })
 
 	// 2. the matrix
 	var cases []CaseIn
@@ -694,11 +730,187 @@ func run(ctx *Ctx) *Result {
 	return res
 }
 
+// ---------------------------------------------------------------- environment noise
+
+// The parallel phase runs the program with time-outs of 1 second; on a loaded machine the
+// simulator (a child process behind a pty) now and then does not answer within that second, the
+// pty pool runs dry, a worker dies.  Such a run says nothing about the program.  Every case whose
+// first run disagrees with the model (or looks like one of these accidents) is therefore run a
+// second time, alone, with longer time-outs, after the parallel phase; only what shows up again
+// is reported.
+const serialTimeoutS = 5
+
+var envNoiseRe = regexp.MustCompile(`/dev/ptmx|no space left on device|too many open files|cannot allocate memory|resource temporarily unavailable|fork/exec`)
+
+func envNoise(o CaseOut) bool {
+	return o.Hung || strings.HasPrefix(o.Panic, "worker died") || envNoiseRe.MatchString(o.Log) ||
+		envNoiseRe.MatchString(o.Stderr) || envNoiseRe.MatchString(o.Panic)
+}
+
+var timedOutRe = regexp.MustCompile(`timer expired|Client\.Timeout|deadline exceeded|i/o timeout`)
+
+// timedOut: the program under test ran into one of its time-outs
+func timedOut(o CaseOut) bool {
+	return timedOutRe.MatchString(o.Log) || timedOutRe.MatchString(o.Stderr)
+}
+
+// rerunSerial runs the given cases again, one after the other, with the long time-out, as long
+// as the budget lasts; ok[i] says whether case i was run again.
+func rerunSerial(cases []CaseIn, budget time.Duration) (outs []CaseOut, ok []bool) {
+	outs = make([]CaseOut, len(cases))
+	ok = make([]bool, len(cases))
+	start := time.Now()
+	for i, c := range cases {
+		if time.Since(start) > budget {
+			break
+		}
+		c.TimeoutS = serialTimeoutS
+		outs[i] = runAll([]CaseIn{c}, 1)[0]
+		ok[i] = true
+	}
+	return
+}
+
+// runChecked: runAll, then the runs that fail `good` once more alone with the long time-out.
+func runChecked(res *Result, cases []CaseIn, nw int, good func(CaseIn, CaseOut) bool) []CaseOut {
+	outs := runAll(cases, nw)
+	var again []int
+	for i := range cases {
+		if !good(cases[i], outs[i]) {
+			again = append(again, i)
+		}
+	}
+	if len(again) > 0 {
+		var ac []CaseIn
+		for _, i := range again {
+			ac = append(ac, cases[i])
+		}
+		o2, ok := rerunSerial(ac, 60*time.Second)
+		for k, i := range again {
+			if ok[k] {
+				res.Count("preparation_run_repeated_serially")
+				outs[i] = o2[k]
+			}
+		}
+	}
+	return outs
+}
+
+// ---------------------------------------------------------------- one case: real run vs model
+
+type plans struct{ g, e plan }
+
+type judged struct {
+	impl, model string
+	ans         string
+	m           map[string]string
+	v           verdict
+	modelHolds  bool
+	exitLost    bool
+	kind        string
+}
+
+// disagrees: something would be reported as a disagreement between the real run and the model
+func (j judged) disagrees() bool {
+	return j.impl != j.model || (j.v.ok != j.modelHolds && j.v.pred != "go_panic")
+}
+
+func modelLine(c CaseIn, p *plans) (line string, untok map[string]string) {
+	tok := map[string]string{}
+	untok = map[string]string{}
+	for _, l := range append(p.g.lines(), p.e.lines()...) {
+		if _, ok := tok[l]; !ok {
+			t := fmt.Sprintf("t%d", len(tok))
+			tok[l] = t
+			untok[t] = l
+		}
+	}
+	fp := "-"
+	if c.FaultPos >= 0 {
+		fp = strconv.Itoa(c.FaultPos)
+	}
+	kind := c.FaultKind
+	if kind == "" {
+		kind = "-"
+	}
+	line = strings.Join([]string{c.Scen.Backend, c.Mode, shapeStr(c.Scen.Shape), encPlan(p.g, tok), encPlan(p.e, tok),
+		strconv.Itoa(b2i(p.g.ipt)), strconv.Itoa(b2i(p.e.ipt)), fp, kind, strconv.Itoa(b2i(c.PrevDiff)), "50"}, "\t")
+	return
+}
+
+func judge(c CaseIn, o CaseOut, p *plans, ans string, untok map[string]string) judged {
+	j := judged{ans: ans, m: parseModel(ans), kind: c.FaultKind}
+	m := j.m
+	// ---- implementation, canonicalised
+	var implSends []string
+	for _, l := range o.Lines {
+		implSends = append(implSends, canonLine(c.Scen.Backend, l))
+	}
+	compare := c.Mode == "compare"
+	implStatus, implEnd := "-", "-"
+	implExit := o.Exit
+	if c.Tool == "doapprove" {
+		implStatus = statusResult(o.Status, compare)
+		implEnd = historyEnd(o.History)
+	}
+	implErr := b2i(strings.Contains(o.Log, "ERROR>>>"))
+	implChg := b2i(strings.Contains(o.Log, "comp: ***"))
+	var scp []string
+	if o.ScpTables {
+		scp = append(scp, "iptables")
+	}
+	if o.ScpRouting {
+		scp = append(scp, "routing")
+	}
+	j.impl = fmt.Sprintf("exit=%d status=%s end=%s err=%d chg=%d scp=%s sends=%s", implExit, implStatus, implEnd, implErr, implChg,
+		strings.Join(scp, ","), strings.Join(implSends, ";"))
+	if o.Hung {
+		j.impl = "hung " + j.impl
+	}
+
+	// ---- model, canonicalised
+	var modelSends []string
+	if m["sends"] != "" {
+		for _, s := range strings.Split(m["sends"], ";") {
+			_, ls, _ := strings.Cut(s, ":")
+			for _, l := range strings.Split(ls, "~") {
+				if u, ok := untok[l]; ok {
+					l = u
+				}
+				if strings.HasPrefix(l, "scp ") {
+					continue
+				}
+				modelSends = append(modelSends, l)
+			}
+		}
+	}
+	if c.FaultKind == "close" && o.FaultAt >= 0 && len(modelSends) > o.FaultAt && !isHTTP(c.Scen.Backend) {
+		// a closed device does not record what is still written to it
+		modelSends = modelSends[:o.FaultAt]
+	}
+	mExit, mStatus, mEnd := m["exit"], strings.SplitN(m["status"], "/", 2)[0], m["end"]
+	if c.Tool == "drc" {
+		mExit, mStatus, mEnd = m["dexit"], "-", "-"
+	}
+	j.model = fmt.Sprintf("exit=%s status=%s end=%s err=%s chg=%s scp=%s sends=%s", mExit, mStatus, mEnd, m["err"], m["chg"], m["scp"],
+		strings.Join(modelSends, ";"))
+	if j.impl != j.model && j.impl+";exit" == j.model {
+		// goexpect hands "exit" to its writer goroutine and the program ends: the final
+		// clean-up line can be lost before it reaches the pty (seen about once in 7000 runs)
+		j.exitLost = true
+		j.impl = j.model
+	}
+	// ---- oracle on the real run; the model's own verdict (specification predicates evaluated
+	// on the model's trace) must be the oracle's verdict on the real run
+	j.v = oracle(c, o, p.g, p.e)
+	j.modelHolds = m["sf"] == "1" && (m["ff"] == "-1" || m["dexit"] == "1")
+	return j
+}
+
 // evalCases: plans via real compare runs, then real runs, model runs, comparison, oracle.
 func evalCases(ctx *Ctx, res *Result, drv *Nadrv, cases []CaseIn, nw int, verbose bool) {
 	// plans per scenario: the real planner's script against the genuine device configuration
 	// and (ASA, IOS) against a retrieval that returned error text
-	type plans struct{ g, e plan }
 	pl := map[string]*plans{}
 	var pc []CaseIn
 	var pk []string
@@ -708,16 +920,18 @@ func evalCases(ctx *Ctx, res *Result, drv *Nadrv, cases []CaseIn, nw int, verbos
 			continue
 		}
 		pl[id] = &plans{}
-		pc = append(pc, CaseIn{Scen: c.Scen, Tool: "doapprove", Mode: "compare", FaultPos: -1})
+		pc = append(pc, CaseIn{Scen: c.Scen, Tool: "doapprove", Mode: "compare", FaultPos: -1, TimeoutS: c.TimeoutS})
 		pk = append(pk, id+"/g")
 		if c.Scen.Backend == "ASA" || c.Scen.Backend == "IOS" {
 			// position of the retrieval command: found by a dry run
-			pc = append(pc, CaseIn{Scen: c.Scen, Tool: "doapprove", Mode: "compare", FaultPos: -2})
+			pc = append(pc, CaseIn{Scen: c.Scen, Tool: "doapprove", Mode: "compare", FaultPos: -2, TimeoutS: c.TimeoutS})
 			pk = append(pk, id+"/e")
 		}
 	}
+	// a preparation run without fault that does not end with exit 0 was disturbed
+	prepGood := func(c CaseIn, o CaseOut) bool { return !envNoise(o) && !timedOut(o) }
 	// first pass: genuine plans and retrieval positions
-	po := runAll(pc, nw)
+	po := runChecked(res, pc, nw, prepGood)
 	var pc2 []CaseIn
 	var pk2 []string
 	for i, k := range pk {
@@ -737,37 +951,55 @@ func evalCases(ctx *Ctx, res *Result, drv *Nadrv, cases []CaseIn, nw int, verbos
 			pk2 = append(pk2, id)
 		}
 	}
-	po2 := runAll(pc2, nw)
+	po2 := runChecked(res, pc2, nw, prepGood)
 	for i, id := range pk2 {
 		pl[id].e = planFromCmp(pc2[i].Scen.Backend, po2[i].CmpLog)
 	}
 
+	// parallel phase
 	outs := runAll(cases, nw)
+	js := make([]judged, len(cases))
+	untoks := make([]map[string]string, len(cases))
+	var suspects []int
 	for i, c := range cases {
-		o := outs[i]
-		p := pl[c.Scen.ID]
-		// tokens for the model
-		tok, untok := map[string]string{}, map[string]string{}
-		for _, l := range append(p.g.lines(), p.e.lines()...) {
-			if _, ok := tok[l]; !ok {
-				t := fmt.Sprintf("t%d", len(tok))
-				tok[l] = t
-				untok[t] = l
+		line, untok := modelLine(c, pl[c.Scen.ID])
+		untoks[i] = untok
+		js[i] = judge(c, outs[i], pl[c.Scen.ID], drv.Ask(line), untok)
+		if js[i].disagrees() || envNoise(outs[i]) {
+			suspects = append(suspects, i)
+		}
+	}
+	// serial phase: the suspects once more, alone, with longer time-outs
+	if len(suspects) > 0 && ctx.Replay == "" {
+		var sc []CaseIn
+		for _, i := range suspects {
+			sc = append(sc, cases[i])
+		}
+		o2, ok := rerunSerial(sc, 45*time.Second)
+		for k, i := range suspects {
+			if !ok[k] {
+				res.Count("suspect_not_repeated_out_of_time")
+				continue
 			}
+			res.Count("suspect_repeated_serially")
+			j2 := judge(cases[i], o2[k], pl[cases[i].Scen.ID], js[i].ans, untoks[i])
+			if !j2.disagrees() {
+				// inconclusive first run: time-out or resource shortage of the test machine
+				res.Count("inconclusive_first_run_not_reproduced")
+			} else {
+				cases[i].TimeoutS = serialTimeoutS // the replay uses what reproduced it
+			}
+			outs[i], js[i] = o2[k], j2
 		}
-		fp := "-"
-		if c.FaultPos >= 0 {
-			fp = strconv.Itoa(c.FaultPos)
-		}
+	}
+
+	for i, c := range cases {
+		o, j, p := outs[i], js[i], pl[c.Scen.ID]
+		m, v, ans := j.m, j.v, j.ans
 		kind := c.FaultKind
 		if kind == "" {
 			kind = "-"
 		}
-		line := strings.Join([]string{c.Scen.Backend, c.Mode, shapeStr(c.Scen.Shape), encPlan(p.g, tok), encPlan(p.e, tok),
-			strconv.Itoa(b2i(p.g.ipt)), strconv.Itoa(b2i(p.e.ipt)), fp, kind, strconv.Itoa(b2i(c.PrevDiff)), "50"}, "\t")
-		ans := drv.Ask(line)
-		m := parseModel(ans)
-
 		canon := fmt.Sprintf("%s|%s|%s|%d|%s|%v", c.Scen.ID, c.Tool, c.Mode, c.FaultPos, c.FaultKind, c.PrevDiff)
 		res.Eval(canon, c.FaultPos >= 0 || len(p.g.packets) > 0)
 		res.Count("backend:" + c.Scen.Backend)
@@ -777,66 +1009,12 @@ func evalCases(ctx *Ctx, res *Result, drv *Nadrv, cases []CaseIn, nw int, verbos
 		if c.FaultPos >= 0 {
 			res.Count("fault_at_class:" + faultClass(c.Scen.Backend, o.Lines, o.FaultAt, c.FaultKind, p.g, p.e))
 		}
-
-		// ---- implementation, canonicalised
-		var implSends []string
-		for _, l := range o.Lines {
-			implSends = append(implSends, canonLine(c.Scen.Backend, l))
-		}
-		compare := c.Mode == "compare"
-		implStatus, implEnd := "-", "-"
-		implExit := o.Exit
-		if c.Tool == "doapprove" {
-			implStatus = statusResult(o.Status, compare)
-			implEnd = historyEnd(o.History)
-		}
-		implErr := b2i(strings.Contains(o.Log, "ERROR>>>"))
-		implChg := b2i(strings.Contains(o.Log, "comp: ***"))
-		var scp []string
-		if o.ScpTables {
-			scp = append(scp, "iptables")
-		}
-		if o.ScpRouting {
-			scp = append(scp, "routing")
-		}
-		impl := fmt.Sprintf("exit=%d status=%s end=%s err=%d chg=%d scp=%s sends=%s", implExit, implStatus, implEnd, implErr, implChg,
-			strings.Join(scp, ","), strings.Join(implSends, ";"))
-
-		// ---- model, canonicalised
-		var modelSends []string
-		if m["sends"] != "" {
-			for _, s := range strings.Split(m["sends"], ";") {
-				_, ls, _ := strings.Cut(s, ":")
-				for _, l := range strings.Split(ls, "~") {
-					if u, ok := untok[l]; ok {
-						l = u
-					}
-					if strings.HasPrefix(l, "scp ") {
-						continue
-					}
-					modelSends = append(modelSends, l)
-				}
-			}
-		}
-		if c.FaultKind == "close" && o.FaultAt >= 0 && len(modelSends) > o.FaultAt && !isHTTP(c.Scen.Backend) {
-			// a closed device does not record what is still written to it
-			modelSends = modelSends[:o.FaultAt]
-		}
-		mExit, mStatus, mEnd := m["exit"], strings.SplitN(m["status"], "/", 2)[0], m["end"]
-		if c.Tool == "drc" {
-			mExit, mStatus, mEnd = m["dexit"], "-", "-"
-		}
-		model := fmt.Sprintf("exit=%s status=%s end=%s err=%s chg=%s scp=%s sends=%s", mExit, mStatus, mEnd, m["err"], m["chg"], m["scp"],
-			strings.Join(modelSends, ";"))
 		res.TracesVsImpl++
-		if impl != model && impl+";exit" == model {
-			// goexpect hands "exit" to its writer goroutine and the program ends: the final
-			// clean-up line can be lost before it reaches the pty (seen about once in 7000 runs)
+		if j.exitLost {
 			res.Count("final_exit_line_not_observed")
-			impl = model
 		}
-		if impl != model {
-			res.Disagree("fault-matrix", c, impl, model)
+		if j.impl != j.model {
+			res.Disagree("fault-matrix", c, j.impl, j.model)
 		}
 		if m["diverge"] == "1" {
 			res.Count("model_diverged")
@@ -845,23 +1023,17 @@ func evalCases(ctx *Ctx, res *Result, drv *Nadrv, cases []CaseIn, nw int, verbos
 		if m["sc"] != "1" {
 			res.Disagree("model-safe-checked", c, "n/a", ans)
 		}
-
-		// ---- oracle on the real run
-		v := oracle(c, o, p.g, p.e)
 		if !v.ok {
 			res.Fail(map[string]any{"pred": v.pred, "backend": c.Scen.Backend}, v.what, c)
 		}
-		// the model's own verdict (specification predicates evaluated on the model's trace)
-		// must be the oracle's verdict on the real run
-		modelHolds := m["sf"] == "1" && (m["ff"] == "-1" || m["dexit"] == "1")
-		if v.ok != modelHolds && v.pred != "go_panic" {
+		if v.ok != j.modelHolds && v.pred != "go_panic" {
 			res.Disagree("oracle-vs-model-spec", c, fmt.Sprintf("oracle ok=%v %s", v.ok, v.what), ans)
 		}
 		if verbose {
-			fmt.Fprintf(os.Stderr, "impl : %s\nmodel: %s\noracle: %+v\n", impl, model, v)
+			fmt.Fprintf(os.Stderr, "impl : %s\nmodel: %s\noracle: %+v\n", j.impl, j.model, v)
 		}
 		if i < 3 {
-			res.Sample(map[string]any{"scenario": c.Scen.ID, "pos": c.FaultPos, "kind": c.FaultKind, "impl": impl})
+			res.Sample(map[string]any{"scenario": c.Scen.ID, "pos": c.FaultPos, "kind": c.FaultKind, "impl": j.impl})
 		}
 	}
 }
